@@ -257,8 +257,7 @@ def parse_info(text):
 def check_data_file(rec, cls, truth, text, info, path, units, style, fmt, natypes_req):
     """All clauses of the property for one data file.  Returns True when the comparison was complete."""
     K = 'data'
-    hyb = style.startswith('hybrid') and units != 'metal'
-    rekey = 'data:hybrid-units:values' if hyb else None
+    rekey = None            # (was: hybrid styles with non-metal units re-keyed while defect G1 stood; repaired in /repo 6c4bf16)
     try:
         d = F.parse_lammps_data(text)
     except F.FormatError as e:
@@ -522,9 +521,7 @@ def run_data(ctx, am, tmpdir, n):
         undefined = any(not U.defined(units, F.COLUMN_QUANTITY[c_]) for c_ in allcols if c_ in F.COLUMN_QUANTITY)
         wkey = 'data:write'
         accept = ()
-        if style in ('peri', 'smd'):
-            wkey = 'data:write:peri-smd'
-        elif undefined:
+        if undefined:
             accept = (KeyError,)                             # LAMMPS defines no such unit for this style: refusal accepted
             rec.count('data:undefined-unit-class')
         out, path = None, None
